@@ -11,7 +11,7 @@ From Coq Require Import List NArith ZArith Bool.
 Import ListNotations.
 From LV Require Import Model.Base Model.Template Model.Eval Model.Derived Model.EvalRun
   Proofs.FrameProofs Proofs.FrameTheorem Proofs.RestrictProofs Proofs.SufficientProofs
-  Proofs.CleanProofs Proofs.FingerprintProofs Proofs.CacheSim.
+  Proofs.CleanProofs Proofs.FingerprintProofs Proofs.CacheSim Proofs.CoveredDefs Proofs.CoveredProofs.
 
 Notation evalN u fuel := (eval unit nc_find nc_store cfg_nc u fuel (fun _ _ => true)).
 Notation keysN u fuel := (keys unit nc_find nc_store cfg_nc u fuel (fun _ _ => true)).
@@ -49,6 +49,20 @@ Theorem C01_one_step_simulation : forall u fuel cfg site_ok sites e (D : dict ->
   scoh u fuel sites e D -> SimAll u fuel cfg site_ok sites e D.
 Proof. exact sim_all. Qed.
 Print Assumptions C01_one_step_simulation.
+
+(** The hypotheses as a BOOLEAN checker ([scohb], Proofs/CoveredDefs.v): a history all of whose
+    operations it accepts is transparent.  The harness evaluates it on every generated history
+    (evidence: distribution.theorem_hypotheses) and applies this conclusion to the implementation
+    as a strict oracle there.  [sites] is any function agreeing with the cache sites that occur in
+    the expressions (each cache id with one cached expression). *)
+Theorem C01_covered_history_transparent : forall u fuel cfg site_ok sites (es : list expr) (h : list hop),
+  (forall c b, sites c = Some b -> In (c, b) (flat_map sites_of es)) ->
+  (forall cb, In cb (flat_map sites_of es) -> sites (fst cb) = Some (snd cb)) ->
+  (forall p, In p h -> In (hop_expr p) es /\
+                       scohb u fuel (flat_map sites_of es) (hop_expr p) (hop_opts p) = true) ->
+  run_hist u fuel cfg site_ok h [] = map (ref_op u fuel) h.
+Proof. exact covered_history_transparent. Qed.
+Print Assumptions C01_covered_history_transparent.
 
 (** Consequently the switch configuration (labrea.cache.disabled(), labrea.logging.disabled()) and
     the ghost oracle do not enter any result of a covered history: with caching on or off, every
